@@ -773,6 +773,7 @@ class Interp:
         if isinstance(v, (bytes, bytearray, list, tuple, str, range, dict, set, frozenset)):
             return list(v)
         if hasattr(v, '_pyvc_iter'):
+            self.max_unroll = min(self.max_unroll, 600)
             return v._pyvc_iter(self)
         import collections
         if isinstance(v, collections.deque):
@@ -1023,8 +1024,31 @@ class Interp:
             return self.eval(node.body, frame)
         return self.eval(node.orelse, frame)
 
+    def _pure_cond(self, e):
+        """side-effect free, exception-free condition over locals/fields/constants: may be evaluated eagerly"""
+        if isinstance(e, (ast.Name, ast.Constant)):
+            return True
+        if isinstance(e, ast.Attribute):
+            return self._pure_cond(e.value)
+        if isinstance(e, ast.Compare):
+            return all(isinstance(o, (ast.Lt, ast.LtE, ast.Gt, ast.GtE, ast.Eq, ast.NotEq)) for o in e.ops) and self._pure_cond(e.left) and all(self._pure_cond(x) for x in e.comparators)
+        if isinstance(e, ast.BoolOp):
+            return all(self._pure_cond(x) for x in e.values)
+        if isinstance(e, ast.UnaryOp) and isinstance(e.op, (ast.Not, ast.USub)):
+            return self._pure_cond(e.operand)
+        return False
+
     def ex_BoolOp(self, node, frame):
         is_and = isinstance(node.op, ast.And)
+        if self.ctx is not None and self.merge_ifs and all(self._pure_cond(e) for e in node.values):
+            # no short-circuit needed: build one formula instead of forking per operand
+            try:
+                vals = [self.eval(e, frame) for e in node.values]
+            except (PyExc, Unsupported):
+                vals = None
+            if vals is not None and any(is_sym(v) for v in vals) and all(is_sym(v) or isinstance(v, (bool, int)) for v in vals):
+                bs = [sx.to_bool(v) for v in vals]
+                return sx.And(*bs) if is_and else sx.Or(*bs)
         v = None
         for e in node.values:
             v = self.eval(e, frame)
@@ -1466,6 +1490,8 @@ class Interp:
         from .stdlib import SStr, str_eq
         if isinstance(a, SStr) or isinstance(b, SStr):
             return str_eq(a, b)
+        if isinstance(a, V.ABytes) or isinstance(b, V.ABytes):
+            return V.abytes_eq(a, b)
         if V.is_bytes(a) or V.is_bytes(b):
             if isinstance(a, str) or isinstance(b, str):
                 return False
